@@ -55,6 +55,21 @@ def gen(rng, tier):
     for w in (1, 2, 3):
         cs.append(Case("pwhash_obj %d 8192 32 %s %s %s" % (2 ** 32 + w, hx(good[0]), hx(good[1]), hx(b"x")), cls="reject/ops-wide-obj", expect="err"))
         cs.append(Case("pwhash_str %d 8192 %s %s %s" % (2 ** 32 + w, hx(good[0]), hx(rbytes(rng, 16)), hx(b"x")), cls="reject/ops-wide-str", expect="err"))
+    # strings that name an out-of-range pass count (t = 0) are refused on the verify routes too — including the one whose hash field is
+    # the value a zero-pass Argon2 would produce, H'(0^1024), which is independent of password and salt
+    import pwfam, refs
+    zero_tag = refs.blake2b(32, b"", (32).to_bytes(4, "little") + bytes(1024))
+    for alg in ("argon2id", "argon2i"):
+        for m in (8, 9, 64):
+            for sl in (8, 16):
+                for tag in (zero_tag, rbytes(rng, 32)):
+                    st = pwfam.mkstr(alg, 0, m, rbytes(rng, sl), tag)
+                    for pw in (b"", b"any password"):
+                        cs.append(Case("pwhash_str_verify %s %s" % (pwfam.shex(st), hx(pw)), cls="reject/t=0-string", expect="err", meta={"no_spec": True, "why": "a string with t=0 must not verify for any password"}))
+                        cs.append(Case("pwhash_objverify_str %s %s" % (pwfam.shex(st), hx(pw)), cls="reject/t=0-string-object", expect="err", meta={"no_sodium": True, "no_spec": True}))
+    # the random-salt wrappers of the presets really run (64 MiB / 256 MiB / 1 GiB): libsodium's output at libsodium's constants
+    for which in ("interactive", "moderate", "sensitive"):
+        cs.append(Case("pwhash_hash_preset %s %s" % (which, hx(rbytes(rng, 9))), cls="preset-wrapper/" + which, meta={"no_spec": True, "alloc_bound": 1 << 31}))
     # the key pair derived from a password is libsodium's crypto_pwhash(32 bytes) → scalarmult_base, whatever hash_length the Config carries
     for hl in (16, 31, 32, 33, 64):
         cs.append(Case("pwhash_keypair 1 8192 %s %s %d" % (hx(good[0]), hx(good[1]), hl), cls="pwhash_keypair/hash_length"))
